@@ -1356,6 +1356,45 @@ def combinators_keep_their_members(ctx):
     ctx.require(n >= 2, "expected the union and the intersection constructors")
 
 
+def _memo_in_closure(ctx, clo):
+    """-> (location, text) of the first process-wide memo found on a function of the closure - as a decorator, as
+    `name = lru_cache(..)(f)`, or on a private helper the model spliced into its callers (read from the raw tree)."""
+    repo = ctx.repo
+    MEMO = ("lru_cache", "cache", "cached")
+    bad = None
+    for f in clo:
+        ctx.touch(f)
+        for d in f.node.decorator_list:
+            nm = dotted(d.func) if isinstance(d, ast.Call) else dotted(d)
+            if nm and nm.split(".")[-1] in MEMO:
+                bad = bad or (f.loc(d), f"`{f.name}` is decorated with `{short(d, 30)}`")
+    names = {f.name for f in clo}
+    for mod in {f.module for f in clo}:
+        spliced = {q.split(".")[-1] for q in getattr(mod, "inlined", [])}
+        if not spliced:
+            continue
+        if not hasattr(mod, "_raw_tree"):
+            mod._raw_tree = ast.parse(mod.src)
+        for st in ast.walk(mod._raw_tree):
+            if isinstance(st, ast.FunctionDef) and st.name in spliced:
+                names.add(st.name)
+                for d in st.decorator_list:
+                    nm = dotted(d.func) if isinstance(d, ast.Call) else dotted(d)
+                    if nm and nm.split(".")[-1] in MEMO:
+                        bad = bad or (f"{mod.rel}:{st.lineno}", f"`{st.name}` is decorated with `{short(d, 30)}`")
+    for mod in repo.modules.values():
+        for st in ast.walk(mod.tree):
+            if isinstance(st, ast.Assign) and isinstance(st.value, ast.Call):
+                v = st.value
+                inner = v.func
+                wrapped = [a for a in v.args if isinstance(a, ast.Name) and a.id in names]
+                fn_name = dotted(inner.func) if isinstance(inner, ast.Call) else dotted(inner)
+                if wrapped and fn_name and fn_name.split(".")[-1] in MEMO:
+                    bad = bad or (f"{mod.rel}:{st.lineno}", f"`{short(st, 50)}` wraps `{wrapped[0].id}` in a memo")
+    return bad
+
+
+
 def resolution_functions_are_not_memoised(ctx):
     """The subtype test, the order function, the layer sorter and the key function consult hooks whose answers can
     change (ABC.register, a method added to a class) and are asked by every function object: none of them, nor what
@@ -1366,24 +1405,7 @@ def resolution_functions_are_not_memoised(ctx):
     roots = [A.subclasscheck_fn(repo), A.typeorder_fn(repo), A.layer_sorter(repo), A.subtler_fn(repo)]
     cg = get_callgraph_for(ctx)
     clo = cg.closure(roots)
-    names = {f.name for f in clo}
-    MEMO = ("lru_cache", "cache", "cached")
-    bad = None
-    for f in clo:
-        ctx.touch(f)
-        for d in f.node.decorator_list:
-            nm = dotted(d.func) if isinstance(d, ast.Call) else dotted(d)
-            if nm and nm.split(".")[-1] in MEMO:
-                bad = bad or (f.loc(d), f"`{f.name}` is decorated with `{short(d, 30)}`")
-    for mod in repo.modules.values():
-        for st in ast.walk(mod.tree):
-            if isinstance(st, ast.Assign) and isinstance(st.value, ast.Call):
-                v = st.value
-                inner = v.func
-                wrapped = [a for a in v.args if isinstance(a, ast.Name) and a.id in names]
-                fn_name = dotted(inner.func) if isinstance(inner, ast.Call) else dotted(inner)
-                if wrapped and fn_name and fn_name.split(".")[-1] in MEMO:
-                    bad = bad or (f"{mod.rel}:{st.lineno}", f"`{short(st, 50)}` wraps `{wrapped[0].id}` in a memo")
+    bad = _memo_in_closure(ctx, clo)
     ctx.ob(
         "mro:resolution-functions-not-memoised",
         bad[0] if bad else roots[0].loc(),
@@ -1922,7 +1944,8 @@ def combination_against_combination(ctx):
 
     repo = ctx.repo
     en = A.order_enum(repo)
-    atoms = ("int", "str", "float")
+    atoms = ("int", "str", "float", "bool")  # bool is a subclass of int; the others are unrelated
+    below = lambda a, b: a == b or (a, b) == ("bool", "int")  # noqa: E731
     n = 0
     for c in repo.all_classes():
         if c.name not in ("Union", "Intersection") or "__type_order__" not in c.methods:
@@ -1957,6 +1980,7 @@ def combination_against_combination(ctx):
                 return made.setdefault(frozenset(item), Comb(item))
 
         combos = [Factory()[m] for k in (2, 3) for m in itertools.combinations(atoms, k)]
+        combos = [x for x in combos if not (set(x.members) >= {"float"} and len(x.members) == 3 and "bool" in x.members)]  # keep the run small
         depth = []
 
         def TO(a, b):
@@ -1974,13 +1998,17 @@ def combination_against_combination(ctx):
                     r = hi.call_function(raw["__type_order__"], [b._handler, a], {}, {})
                     if r is not NotImplemented:
                         return r.opposite()
-                return _ORD["NONE"]  # distinct unrelated classes
+                if below(a, b):
+                    return _ORD["LESS"]
+                if below(b, a):
+                    return _ORD["MORE"]
+                return _ORD["NONE"]  # unrelated classes
             finally:
                 depth.pop()
 
         order_ns = Record(merge=HostFn(lambda orders: _ref_merge(list(orders))), **_ORD)
         funcs = {nm: g.node for nm, g in hook.module.funcs.items() if g.parent is None and g.cls is None and not g.node.decorator_list}
-        genv = {en.name: order_ns, "NotImplemented": NotImplemented, "typeorder": HostFn(TO), c.name: Factory(), "subclasscheck": HostFn(lambda x, y: x == y or (isinstance(y, Comb) and x in y.members))}
+        genv = {en.name: order_ns, "NotImplemented": NotImplemented, "typeorder": HostFn(TO), c.name: Factory(), "subclasscheck": HostFn(lambda x, y: x == y or (isinstance(y, Comb) and any(below(x, m) for m in y.members)) or (not isinstance(y, Comb) and not isinstance(x, Comb) and below(x, y)))}
         hi = HostInterp(raw, Record(), {}, globals_env=genv, classes={}, functions=funcs)
         hi.host_types = hi.host_types + (_Ord, Comb, Factory)
         bad_mirror = bad_incl = None
@@ -1997,10 +2025,13 @@ def combination_against_combination(ctx):
                 raise AnalysisError(f"{hook.key}: answers {a!r} / {b!r}")
             if a.opposite() is not b and bad_mirror is None:
                 bad_mirror = (u, v, a, b)
-            su, sv = set(u.members), set(v.members)
-            incl = "LESS" if su < sv else "MORE" if sv < su else "NONE"
-            if c.name == "Intersection":
-                incl = {"LESS": "MORE", "MORE": "LESS"}.get(incl, incl)
+            if c.name == "Union":
+                le = all(any(below(x, y) for y in v.members) for x in u.members)  # every alternative of u fits in v
+                ge = all(any(below(y, x) for x in u.members) for y in v.members)
+            else:
+                le = all(any(below(x, y) for x in u.members) for y in v.members)  # u demands at least what v demands
+                ge = all(any(below(y, x) for y in v.members) for x in u.members)
+            incl = "SAME" if le and ge else "LESS" if le else "MORE" if ge else "NONE"
             if a.name != incl and bad_incl is None:
                 bad_incl = (u, v, a, incl)
         n += 1
@@ -2014,7 +2045,7 @@ def combination_against_combination(ctx):
         ctx.ob(
             f"{hook.key}:against-its-own-kind:inclusion",
             hook.loc(),
-            f"a {c.name.lower()} whose members are all members of another one is {'LESS' if c.name == 'Union' else 'MORE'}; two that overlap or are disjoint are unordered ({cases} ordered pairs interpreted)",
+            f"two {c.name.lower()}s are ordered by what they cover: {'every alternative of the one fits an alternative of the other -> LESS' if c.name == 'Union' else 'the one demands at least what the other demands -> LESS'}, both ways -> SAME, neither -> NONE ({cases} ordered pairs over int, bool < int, str, float interpreted)",
             bad_incl is None,
             (f"typeorder({bad_incl[0]}, {bad_incl[1]}) is {bad_incl[2]}, inclusion says {bad_incl[3]}: a method on the wider {c.name.lower()} is preferred over (or silently tied with) the method on the narrower one" if bad_incl else ""),
         )
@@ -2185,3 +2216,103 @@ def order_is_mirrored_across_kinds(ctx):
             (bad or "") + ": the layer sorter asks each pair one way only, in set order, so which of two methods is preferred (or whether the call is ambiguous) depends on the hash seed",
         )
     ctx.require(n >= 20, "expected the cross-kind pairs")
+
+
+# ---------------------------------------------------------------------------------------- tables are per object
+_SHARED_TABLE_EXAMPLE = """
+class Table(dict):
+    errors = {}
+
+    def __init__(self):
+        self.maps = {}
+
+    def file(self, key, err):
+        self.errors[key] = err
+"""
+
+
+def _shared_class_tables(cls_node):
+    """(attribute, statement) for every mutable container assigned in the class body that a method changes in place
+    through the receiver without the constructor giving each object its own."""
+    MUT_CALLS = ("dict", "list", "set", "defaultdict", "OrderedDict", "Counter", "deque")
+    MUT_METHODS = ("append", "add", "update", "clear", "setdefault", "pop", "popitem", "extend", "insert", "remove", "discard", "__setitem__")
+    level = {}
+    for st in cls_node.body:
+        if isinstance(st, ast.Assign) and len(st.targets) == 1 and isinstance(st.targets[0], ast.Name):
+            v = st.value
+            if isinstance(v, (ast.Dict, ast.List, ast.Set)) or (isinstance(v, ast.Call) and isinstance(v.func, ast.Name) and v.func.id in MUT_CALLS):
+                level[st.targets[0].id] = st
+    if not level:
+        return []
+    own = set()
+    for f in cls_node.body:
+        if isinstance(f, ast.FunctionDef) and f.name == "__init__" and f.args.args:
+            rv = f.args.args[0].arg
+            for x in ast.walk(f):
+                if isinstance(x, (ast.Assign, ast.AnnAssign)):
+                    for t in x.targets if isinstance(x, ast.Assign) else [x.target]:
+                        for y in ast.walk(t):
+                            if isinstance(y, ast.Attribute) and isinstance(y.value, ast.Name) and y.value.id == rv and isinstance(y.ctx, ast.Store):
+                                own.add(y.attr)
+    out = []
+    for f in cls_node.body:
+        if not (isinstance(f, ast.FunctionDef) and f.args.args):
+            continue
+        rv = f.args.args[0].arg
+        for x in ast.walk(f):
+            hit = None
+            if isinstance(x, ast.Subscript) and isinstance(x.ctx, (ast.Store, ast.Del)) and isinstance(x.value, ast.Attribute) and isinstance(x.value.value, ast.Name) and x.value.value.id == rv:
+                hit = x.value.attr
+            elif isinstance(x, ast.Call) and isinstance(x.func, ast.Attribute) and x.func.attr in MUT_METHODS and isinstance(x.func.value, ast.Attribute) and isinstance(x.func.value.value, ast.Name) and x.func.value.value.id == rv:
+                hit = x.func.value.attr
+            if hit in level and hit not in own:
+                out.append((hit, x, f.name))
+    return out
+
+
+def tables_are_per_object(ctx):
+    """No class of the package keeps a table it changes in place as a class attribute (one object shared by every
+    instance): the per-function caches, remembered errors and per-argument maps are created by the constructor."""
+    ex = ast.parse(_SHARED_TABLE_EXAMPLE).body[0]
+    if [h[0] for h in _shared_class_tables(ex)] != ["errors"]:
+        raise AnalysisError("shared-table rule no longer recognises its positive example")
+    repo = ctx.repo
+    n = 0
+    for c in repo.all_classes():
+        if not c.methods:
+            continue
+        n += 1
+        hits = _shared_class_tables(c.node)
+        if c.name in ("MultiTypeMap", "TypeMap", "Ovld") or hits:
+            for m in c.methods.values():
+                ctx.touch(m)
+                break
+            ctx.ob(
+                f"{c.key}:tables-per-object",
+                c.loc(),
+                f"`{c.name}` keeps no table it changes in place as a class attribute",
+                not hits,
+                (f"`{hits[0][0]}` is assigned once in the class body and changed in place by {hits[0][2]}() (`{short(hits[0][1], 40)}`): every {c.name} shares the one object, so what one function remembered (an ambiguity error, a cached resolution) answers a call of another function" if hits else ""),
+            )
+    ctx.require(n >= 10, "expected the classes of the package")
+
+
+# ---------------------------------------------------------------------------------------- nothing of a build is memoised
+def build_functions_are_not_memoised(ctx):
+    """What a build does to a method - adapting it, rewriting its recurse / call_next sites, compiling it - depends on
+    the function object's state at that build (the argument analysis decides key functions and keyword folding): the
+    adapter, the re-compiler and the generators, and what they call, carry no process-wide memo."""
+    from .c14 import get_callgraph_for
+
+    repo = ctx.repo
+    roots = [A.adapter(repo), A.recompiler(repo), A.entry_generator(repo), A.dependent_generator(repo)]
+    cg = get_callgraph_for(ctx)
+    clo = cg.closure(roots)
+    bad = _memo_in_closure(ctx, clo)
+    ctx.ob(
+        "recode:build-functions-not-memoised",
+        bad[0] if bad else roots[1].loc(),
+        f"none of the {len(clo)} functions behind the adapter, the re-compiler and the two generators is memoised process-wide",
+        bad is None,
+        (f"{bad[1]}: the result computed for a method at one build is served at every later build, although a registration in between changed the argument analysis - the method keeps rewritten call sites (key functions, keyword folding, self) of the old method set" if bad else ""),
+    )
